@@ -5,12 +5,19 @@ package cmdutil
 import (
 	"fmt"
 	"os"
+	"syscall"
 
 	"github.com/agglayer/aggkit/log"
 )
 
 // Main runs one area driver: drv_<area> -in <behaviours.json> -out <trace.ndjson> [flags]
 func Main(name string, fn func(args []string) error) {
+	// every store the drivers open leaks one handle inside the repository's migration runner: lift the soft limit
+	var rl syscall.Rlimit
+	if syscall.Getrlimit(syscall.RLIMIT_NOFILE, &rl) == nil && rl.Cur < rl.Max {
+		rl.Cur = rl.Max
+		_ = syscall.Setrlimit(syscall.RLIMIT_NOFILE, &rl)
+	}
 	// the node's own logging is noise here; VERIF_LOG=debug turns it on (stderr)
 	lvl := os.Getenv("VERIF_LOG")
 	outs := []string{"stderr"}
